@@ -261,12 +261,17 @@ LineWF(ln) == /\ NameWF(ln) /\ Len(ln.toks) >= 1 /\ \A i \in 1 .. Len(ln.toks) :
 CidrWF(cd) == /\ cd.a \in 1 .. NA /\ cd.form \in {"dot", "short", "map"} /\ FormOK(Addrs[cd.a], cd.form)
               /\ cd.p \in 0 .. (IF Addrs[cd.a].fam = 4 THEN 32 ELSE 128)
               /\ cd.txt = Cidr(cd.a, cd.p, cd.form).txt
+\* host parts that are not an IP address for net.ParseIP; addresses net.SplitHostPort rejects
+HostTexts == <<"localhost", "fe80::1%eth0", "999.1.1.1", "">>
+NoPortTexts == <<"10.0.0.1", "[::1]", "", "10.0.0.1:80:90", "::1", "[10.0.0.1]">>
+InSeq(x, sq) == \E i \in 1 .. Len(sq) : sq[i] = x
 RemoteWF(r) == CASE r.k = "ip" -> /\ r.a \in 1 .. NA /\ FormOK(Addrs[r.a], r.form) /\ r.host = Render(Addrs[r.a], r.form)
                                   /\ r.txt \in {pad \o HostPort(r.host, r.form) \o pad : pad \in {"", " "}}
                                   /\ r.real => (r.form \in {"dot", "short"} /\ r.txt = HostPort(r.host, r.form))
-                 [] r.k = "host" -> r.form \in {"name", "v6"} /\ r.txt = HostPort(r.host, r.form) /\ ~r.real
+                 [] r.k = "host" -> r.form \in {"name", "v6"} /\ InSeq(r.host, HostTexts) /\ r.txt = HostPort(r.host, r.form) /\ ~r.real
                  [] r.k = "unix" -> r.net \in {"unix", "unixgram", "unixpacket"} /\ r.txt = r.host /\ ~r.real
-                 [] r.k = "noport" -> ~r.real
+                                    /\ r.txt \in {"/tmp/hertz.sock", "@hertz", ""}
+                 [] r.k = "noport" -> InSeq(r.txt, NoPortTexts) /\ ~r.real
                  [] r.k = "noconn" -> ~r.real
                  [] OTHER -> FALSE
 CaseWF(c) == /\ c.via \in {"opt", "default"}
@@ -274,168 +279,4 @@ CaseWF(c) == /\ c.via \in {"opt", "default"}
              /\ \A i \in 1 .. Len(c.cidrs) : CidrWF(c.cidrs[i])
              /\ \A i \in 1 .. Len(c.names) : NameWF(c.names[i])
              /\ \A i \in 1 .. Len(c.lines) : LineWF(c.lines[i])
-
-\* ================================================================ the case space
-CONSTANTS MaxToks,    \* longest enumerated X-Forwarded-For list (family "scan")
-          Big,        \* FALSE: quick tier (two text forms per address, two spacing patterns); TRUE: all
-          NRand,      \* number of pseudo-random cases
-          Seed
-
-Seqs(S, lo, hi) == UNION {[1 .. k -> S] : k \in lo .. hi}
-SetSeq(s) == {s[i] : i \in 1 .. Len(s)}
-\* spacing patterns applied to a whole list: "a,b" | "a, b" | " a , b " | "\ta  ,\tb  "
-Pats == IF Big THEN {"none", "std", "both", "tab"} ELSE {"none", "std"}
-Pat(toks, p) == [i \in 1 .. Len(toks) |->
-                  [toks[i] EXCEPT !.ls = CASE p = "none" -> "" [] p = "std" -> (IF i > 1 THEN " " ELSE "")
-                                           [] p = "both" -> " " [] OTHER -> "\t",
-                                  !.rs = CASE p = "both" -> " " [] p = "tab" -> "  " [] OTHER -> ""]]
-T(ai, form) == Tok(ai, form, "", "")
-B(bi) == Bad(bi, "", "")
-FormsQ(i) == IF Big THEN SetSeq(FormsOf(i))
-             ELSE IF Addrs[i].fam = 4 THEN {"dot", "map", "maphex"} ELSE {"short", "full"}
-
-Cidrs4 == <<Cidr(Ix(10, 0, 0, 0), 8, "dot"), Cidr(Ix(10, 128, 0, 0), 9, "dot"), Cidr(Ix(10, 0, 0, 0), 15, "dot"),
-            Cidr(Ix(1, 2, 3, 4), 32, "dot"), Cidr(Ix(1, 2, 3, 4), 31, "dot"), Cidr(Ix(1, 2, 3, 4), 30, "dot"),
-            Cidr(Ix(0, 0, 0, 0), 0, "dot"), Cidr(Ix(127, 0, 0, 1), 8, "dot"), Cidr(Ix(192, 168, 1, 128), 25, "dot"),
-            Cidr(Ix(0, 0, 0, 0), 1, "dot"), Cidr(Ix(128, 0, 0, 0), 1, "dot"), Cidr(Ix(10, 0, 0, 1), 7, "dot"),
-            Cidr(Ix(255, 255, 255, 255), 32, "dot"), Cidr(Ix(10, 0, 0, 0), 8, "map"), Cidr(Ix(1, 2, 3, 4), 32, "map")>>
-Cidrs6 == <<Cidr(Ix6("::"), 0, "short"), Cidr(Ix6("::1"), 128, "short"), Cidr(Ix6("2001:db8::"), 32, "short"),
-            Cidr(Ix6("fc00::"), 7, "short"), Cidr(Ix6("fe80::1"), 10, "short"), Cidr(Ix6("::"), 127, "short"),
-            Cidr(Ix6("::a00:1"), 96, "short"), Cidr(Ix6("64:ff9b::a00:1"), 96, "short"),
-            Cidr(Ix6("2001:db8::1"), 128, "short")>>
-AllCidrs == Cidrs4 \o Cidrs6
-AnchorC == Cidr(Ix(203, 0, 113, 1), 24, "dot")            \* 203.0.113.0/24, written with host bits set
-AnchorR == RemoteIP(Ix(203, 0, 113, 1), "dot", "", FALSE)
-C10 == Cidrs4[1]
-XFF0 == Name("XFF", 0)
-XRI0 == Name("XRI", 0)
-
-\* --- family "scan": the right-to-left scan, every entry list of length <= MaxToks over 9 entry kinds
-ScanToks == {T(Ix(10, 0, 0, 0), "dot"), T(Ix(10, 255, 255, 255), "map"), T(Ix(9, 255, 255, 255), "dot"),
-             T(Ix(11, 0, 0, 0), "maphex"), T(Ix6("2001:db8::1"), "short"), T(Ix(10, 0, 0, 1), "MAP"),
-             B(1), B(3), B(2)}
-ScanXRI == {<< >>, <<T(Ix(8, 8, 8, 8), "dot")>>, <<B(5)>>, <<T(Ix(10, 0, 0, 0), "dot")>>}
-ScanNames == {<<XFF0, XRI0>>, <<XRI0, XFF0>>, <<XFF0>>}
-ScanRemotes == {RemoteIP(Ix(10, 0, 0, 1), "dot", "", FALSE), RemoteIP(Ix(8, 8, 8, 8), "dot", "", FALSE)}
-FamScan ==
-  UNION {{MkCase("scan", "opt", r, FALSE, <<C10>>, nm,
-                 (IF x = << >> THEN << >> ELSE <<Line("XFF", 0, Pat(x, p))>>) \o
-                 (IF y = << >> THEN << >> ELSE <<Line("XRI", 0, y)>>)) :
-            r \in ScanRemotes, nm \in ScanNames, y \in ScanXRI,
-            p \in {q \in Pats : Big \/ q = "std" \/ Len(x) <= 2}} : x \in Seqs(ScanToks, 0, MaxToks)}
-
-\* --- family "entry": membership of a list entry at the boundaries of every CIDR, every address, every form
-\* (the peer is trusted through the anchor range; the first entry is an untrusted sentinel)
-AF == UNION {{<<x, f>> : f \in FormsQ(x)} : x \in 1 .. NA}      \* every address in every text form of the tier
-FamEntry ==
-  {MkCase("entry", "opt", AnchorR, FALSE, <<AllCidrs[ci], AnchorC>>, <<XFF0>>,
-          <<Line("XFF", 0, Pat(<<T(Ix(8, 8, 4, 4), "dot"), T(xf[1], xf[2])>>, "std"))>>) :
-     ci \in 1 .. Len(AllCidrs), xf \in AF}
-\* --- family "peer": membership of the peer itself (own net.Addr in every form; real *net.TCPAddr for canonical ones)
-FamPeer ==
-  UNION {{MkCase("peer", "opt", RemoteIP(xf[1], xf[2], pr[1], pr[2]), FALSE, <<AllCidrs[ci]>>, <<XFF0>>,
-                 <<Line("XFF", 0, <<T(Ix(8, 8, 8, 8), "dot")>>)>>) :
-            ci \in 1 .. Len(AllCidrs),
-            pr \in {<<"", FALSE>>, <<" ", FALSE>>} \cup (IF xf[2] \in {"dot", "short"} THEN {<<"", TRUE>>} ELSE {})} :
-         xf \in AF}
-
-\* --- family "kinds": peers that are not a plain IP, against the option sets that matter for them
-HostTexts == <<"localhost", "fe80::1%eth0", "999.1.1.1", "">>
-NoPortTexts == <<"10.0.0.1", "[::1]", "", "10.0.0.1:80:90", "::1", "[10.0.0.1]">>
-KindRemotes == {RemoteUnix(n, p) : n \in {"unix", "unixgram", "unixpacket"}, p \in {"/tmp/hertz.sock", "@hertz", ""}}
-               \cup {RemoteNoPort(NoPortTexts[i]) : i \in 1 .. Len(NoPortTexts)}
-               \cup {RemoteHost("localhost", "name"), RemoteHost("fe80::1%eth0", "v6"), RemoteHost("999.1.1.1", "name"),
-                     RemoteHost("", "name"), RemoteNoConn,
-                     RemoteIP(Ix(127, 0, 0, 1), "dot", " ", FALSE), RemoteIP(Ix6("::1"), "short", "", TRUE)}
-KindOpts == {<<TRUE, << >>>>, <<FALSE, << >>>>, <<FALSE, <<Cidrs4[8]>>>>, <<FALSE, <<C10>>>>, <<FALSE, <<Cidrs4[7], Cidrs6[1]>>>>,
-             <<FALSE, <<Cidr(Ix(127, 0, 0, 1), 32, "dot")>>>>, <<FALSE, <<Cidrs6[2]>>>>, <<FALSE, <<Cidrs6[5]>>>>,
-             <<FALSE, <<Cidr(Ix(0, 0, 0, 0), 32, "dot")>>>>}
-KindLines == {<< >>, <<Line("XFF", 0, <<T(Ix(8, 8, 8, 8), "dot")>>)>>,
-              <<Line("XFF", 0, <<B(2)>>), Line("XRI", 0, <<T(Ix(1, 2, 3, 4), "dot")>>)>>}
-FamKinds == {MkCase("kinds", "opt", r, o[1], o[2], <<XFF0, XRI0>>, ls) : r \in KindRemotes, o \in KindOpts, ls \in KindLines}
-
-\* --- family "multi": several lines of one name (A6)
-MultiToks == {T(Ix(10, 0, 0, 0), "dot"), T(Ix(9, 255, 255, 255), "dot"), T(Ix(11, 0, 0, 0), "dot"), B(2)}
-FamMulti ==
-  {MkCase("multi", "opt", AnchorR, FALSE, <<C10, AnchorC>>, <<XFF0, XRI0>>,
-          <<Line("XFF", 0, Pat(x, "std"))>> \o mid \o <<Line("XFF", v, Pat(y, "std"))>>) :
-     x \in Seqs(MultiToks, 1, 2), y \in Seqs(MultiToks, 1, 2), v \in {0, 1},
-     mid \in {<< >>, <<Line("XRI", 0, <<T(Ix(8, 8, 8, 8), "dot")>>)>>}}
-  \cup
-  {MkCase("multi", "opt", AnchorR, FALSE, <<C10, AnchorC>>, <<XRI0, XFF0>>,
-          <<Line("XRI", 0, <<x>>), Line("XFF", 0, <<T(Ix(8, 8, 8, 8), "dot")>>), Line("XRI", 2, <<y>>)>>) :
-     x \in MultiToks, y \in MultiToks}
-
-\* --- family "default": the package default options (nothing configured)
-DefToks == {T(Ix(1, 2, 3, 4), "dot"), T(Ix(10, 0, 0, 1), "map"), T(Ix6("2001:db8::1"), "FULL"), T(Ix6("::a00:1"), "short"), B(2), B(1)}
-DefRemotes == {RemoteIP(Ix(10, 0, 0, 1), "dot", "", TRUE), RemoteIP(Ix6("2001:db8::1"), "short", "", TRUE),
-               RemoteIP(Ix(1, 2, 3, 4), "map", "", FALSE), RemoteNoConn, RemoteUnix("unix", "/tmp/hertz.sock"),
-               RemoteHost("localhost", "name"), RemoteNoPort("10.0.0.1"), RemoteIP(Ix6("::a00:1"), "full", "", FALSE)}
-FamDefault ==
-  {MkCase("default", "default", r, FALSE, << >>, << >>,
-          (IF x = << >> THEN << >> ELSE <<Line("XFF", v, Pat(x, "std"))>>) \o
-          (IF y = << >> THEN << >> ELSE <<Line("XRI", v, y)>>)) :
-     r \in DefRemotes, x \in Seqs(DefToks, 0, 2), y \in {<< >>, <<T(Ix(8, 8, 8, 8), "dot")>>, <<B(4)>>}, v \in {0, 1}}
-
-\* --- family "names": which headers are consulted, in which order, spelled how
-NameLists == {<< >>, <<Name("CIP", 0)>>, <<Name("XRI", 1), Name("XFF", 2)>>, <<XFF0, XFF0>>,
-              <<Name("CIP", 2), XFF0, Name("XRI", 2)>>, <<Name("XRI", 0)>>, <<Name("XFF", 1)>>}
-FamNames ==
-  {MkCase("names", "opt", AnchorR, FALSE, <<AnchorC>>, nm,
-          <<Line("XRI", v, <<a>>), Line("CIP", v, <<b>>), Line("XFF", (v + 1) % 3, <<c>>)>>) :
-     nm \in NameLists, v \in 0 .. 2, a \in {T(Ix(1, 2, 3, 4), "dot"), B(2)}, b \in {T(Ix(1, 2, 3, 5), "dot"), B(3)},
-     c \in {T(Ix(1, 2, 3, 6), "dot"), B(4)}}
-
-\* --- family "rand": NRand pseudo-random cases over everything above; a pure function of (Seed, i), so that a case is
-\* reproducible from its number (no RandomElement: TLC may evaluate an expression more than once)
-H(x) == LET y == x % 46337 IN (y * y + 7) % 46337
-R(i, k) == H(H(H((Seed * 131 + i * 31 + k * 7) % 46337) + k) + (i % 977))
-Sp == <<"", " ", "", " ", "  ", "\t">>
-PickSp(i, k) == Sp[(R(i, k) % Len(Sp)) + 1]
-RandTok(i, k) ==
-  IF R(i, k) % 5 = 0 THEN Bad((R(i, k + 1) % Len(BadTexts)) + 1, PickSp(i, k + 2), PickSp(i, k + 3))
-  ELSE LET x == (R(i, k + 1) % NA) + 1  fs == FormsOf(x) IN
-       Tok(x, fs[(R(i, k + 4) % Len(fs)) + 1], PickSp(i, k + 2), PickSp(i, k + 3))
-RandToks(i, k0, max) == [j \in 1 .. (R(i, k0) % (max + 1)) |-> RandTok(i, k0 + 10 * j)]
-RandRemote(i) ==
-  LET w == R(i, 1) % 12  x == (R(i, 2) % NA) + 1  fs == FormsOf(x)  f == fs[(R(i, 3) % Len(fs)) + 1] IN
-  CASE w = 11 -> RemoteUnix(<<"unix", "unixgram", "unixpacket">>[(R(i, 4) % 3) + 1], <<"/tmp/hertz.sock", "@hertz", "">>[(R(i, 5) % 3) + 1])
-    [] w = 10 -> RemoteHost(HostTexts[(R(i, 4) % 3) + 1], <<"name", "v6", "name">>[(R(i, 4) % 3) + 1])
-    [] w = 9  -> RemoteNoPort(NoPortTexts[(R(i, 4) % Len(NoPortTexts)) + 1])
-    [] w = 8  -> RemoteNoConn
-    [] OTHER  -> IF f \in {"dot", "short"} /\ R(i, 6) % 2 = 0 THEN RemoteIP(x, f, "", TRUE)
-                 ELSE RemoteIP(x, f, IF R(i, 7) % 4 = 0 THEN " " ELSE "", FALSE)
-WideCidrs == <<Cidrs4[7], Cidrs6[1], Cidrs4[10], Cidrs4[11], Cidrs6[4]>>      \* ranges that make trust likely
-RandCidr(i, k) == IF R(i, k) % 3 = 0 THEN WideCidrs[(R(i, k + 1) % Len(WideCidrs)) + 1]
-                  ELSE AllCidrs[(R(i, k + 1) % Len(AllCidrs)) + 1]
-NameListSeq == <<<<XFF0, XRI0>>, <<XFF0, XRI0>>, <<XRI0, XFF0>>, <<XFF0>>, << >>, <<Name("CIP", 0)>>,
-                 <<Name("XRI", 1), Name("XFF", 2)>>, <<Name("CIP", 2), XFF0, Name("XRI", 2)>>, <<Name("XFF", 1), Name("CIP", 1)>>>>
-RandCase(i) ==
-  LET nc == R(i, 10) % 4
-      xff == RandToks(i, 100, 4)   xff2 == RandToks(i, 200, 2)   xri == RandToks(i, 300, 2)   cip == RandToks(i, 400, 1)
-      v == R(i, 11) % 3
-      l1 == IF xff = << >> THEN << >> ELSE <<Line("XFF", v, xff)>>
-      l2 == IF xri = << >> THEN << >> ELSE <<Line("XRI", (v + 1) % 3, xri)>>
-      l3 == IF cip = << >> THEN << >> ELSE <<Line("CIP", v, cip)>>
-      l4 == IF xff2 = << >> \/ R(i, 12) % 6 # 0 THEN << >> ELSE <<Line("XFF", 0, xff2)>>     \* a second line, rarely
-      ord == R(i, 13) % 3
-  IN MkCase("rand", IF R(i, 14) % 7 = 0 THEN "default" ELSE "opt", RandRemote(i),
-            nc = 0 /\ R(i, 15) % 2 = 0, [j \in 1 .. nc |-> RandCidr(i, 20 + 3 * j)],
-            NameListSeq[(R(i, 16) % Len(NameListSeq)) + 1],
-            CASE ord = 0 -> l1 \o l2 \o l3 \o l4 [] ord = 1 -> l2 \o l3 \o l1 \o l4 [] OTHER -> l3 \o l1 \o l4 \o l2)
-FamRand == {RandCase(i) : i \in 1 .. NRand}
-
-Space == FamScan \cup FamEntry \cup FamPeer \cup FamKinds \cup FamMulti \cup FamDefault \cup FamNames \cup FamRand
-
-\* ================================================================ model checking: every case of the space is a state
-VARIABLE cur
-Init == cur \in Space
-Next == UNCHANGED cur
-Spec == Init /\ [][Next]_cur
-WF == CaseWF(cur)
-ImplIsRef == ~MultiLine(cur) => Impl(cur) = Ref(cur)       \* the code as written meets the clauses A1-A5 ...
-ImplIsRefAll == Impl(cur) = Ref(cur)                        \* ... and not A6 (ClientIP_multiline.cfg must refute this)
-NoSpoofInv == NoSpoof(cur)
-RightMostInv == RightMost(cur)
-ResultShapeInv == ResultShape(cur)
 =============================================================================
